@@ -304,6 +304,32 @@ def wide_svar_case(rng, w):
     return doc, toks
 
 
+# keys that are not a plain decimal index of an array (Value::GetValue(key, length) must find nothing: the tag is
+# reproduced verbatim) next to keys that are one ("00", "007", "10", "2", ten digits with leading zeros)
+BAD_INDEX = [[], U(":"), U("/"), U("1a"), U(" 1"), U("+1"), U("-0"), U("4294967295"), U("4294967296"), U("4294967297"),
+             U("99999999999"), U("00000000001"), U("a"), U("1 "), U("0x1"), U("1.0")]
+GOOD_INDEX = [U("00"), U("007"), U("10"), U("2"), U("0000000001"), U("0")]
+WIDE_INDEX = [[0x0661], [0x0131], [0xFF11], [0x0031, 0x0660], [0x0130]]          # digit look-alikes, widths 2 / 4 / W only
+
+
+def array_index_case(rng, w):
+    """{var:l[<key>]} / {raw:l[<key>]} / nested d[<key>][k] on arrays of 3, 11 and 12 elements."""
+    n = rng.choice([3, 11, 12])
+    doc = ("o", [(U("l"), ("a", [("n", 10 * (i + 1)) for i in range(n)])),
+                 (U("d"), ("a", [("o", [(U("k"), ("n", 7 + i))]) for i in range(rng.choice([1, 11]))]))])
+    pool = BAD_INDEX + BAD_INDEX + GOOD_INDEX + (WIDE_INDEX if w != "1" else [])
+    key = rng.choice(pool)
+    x = rng.random()
+    if x < 0.6:
+        path = U("l[") + key + U("]")
+    elif x < 0.8:
+        path = U("d[") + key + U("][k]")
+    else:
+        path = U("l[") + key + U("][0]")
+    toks = ["x" + dots(U("<")), rng.choice("vr") + dots(path), "x" + dots(U(">"))]
+    return doc, toks
+
+
 def narrow_field_probe(ctx, exe):
     """The tag records keep name lengths / attribute offsets in 8- and 16-bit fields. Names of 256 units and
     more are derivable from the documented grammar; the documented expansion of `{var:<name>}` with the key
@@ -363,6 +389,11 @@ def run(ctx):
         doc, toks = wide_svar_case(ctx.rng, w)
         spec_lines.append("tplspec 1 %s %s" % (enc(doc), ",".join(toks)))
         widths.append(w)
+    for _ in range(N // 20):          # keyed reads of arrays with keys that are / are not a plain decimal index
+        w = ctx.rng.choice("11124W")
+        doc, toks = array_index_case(ctx.rng, w)
+        spec_lines.append("tplspec 1 %s %s" % (enc(doc), ",".join(toks)))
+        widths.append(w)
     for _ in range(N // 15):          # non-Latin-1 units that are a special character under a mask, on every escaped path (round c)
         w = ctx.rng.choice("24W")
         doc, toks = T.c02_wide_escape_case(ctx.rng, w, enc)
@@ -404,10 +435,11 @@ def run(ctx):
     ctx.notes.append("templates: %d generated, %d compared, %d mismatches" % (N, len(lines), len(mism)))
     T.c02_copies(ctx, exe, lines, expected)          # the same through a copy of the parsed tag array (round c)
     T.c02_group(ctx, drv, exe, enc)                  # <loop group=> on items with differing member orders (round c)
+    T.c02_narrow_fields(ctx, drv, exe)               # every 8/16-bit tag field at limit-1 / limit / limit+1 (round g)
     ctx.assumptions += ["well-formedness side conditions are those of the generator (see META.note)",
                         "number formatting of reals, sort=, group= are decided by C10 / C15 / C18"]
 
 
 FINISH = dict(level="proof",
-              rule="every 5th (quick) / 2nd (thorough) render repeated in SSE2 and AVX2 builds and compared with the scalar build; generated template trees (text, var, raw, math, svar, inline if, if chains, loops nested <= 3; block tags nested 7..13 deep with loops at the 8/9 boundary; super-variable phrases with wide units whose low byte is an ASCII digit) x generated value trees, widths 1/2/4/wchar_t; printed by the Lean printer, rendered by the real code on exact-size buffers under ASan/UBSan, compared with the Lean reference expansion; round c: non-Latin-1 units that are a special character under a mask on every escaped path (widths 2/4/W), every 9th line again through a copy of the parsed tags, <loop group=> over objects with differing member orders against the Lean grouping specification; non-trivial = contains at least one tag",
+              rule="every 5th (quick) / 2nd (thorough) render repeated in SSE2 and AVX2 builds and compared with the scalar build; generated template trees (text, var, raw, math, svar, inline if, if chains, loops nested <= 3; block tags nested 7..13 deep with loops at the 8/9 boundary; super-variable phrases with wide units whose low byte is an ASCII digit) x generated value trees, widths 1/2/4/wchar_t; printed by the Lean printer, rendered by the real code on exact-size buffers under ASan/UBSan, compared with the Lean reference expansion; round g: every 8/16-bit field of the tag records and every SizeT8/SizeT16 cast of Template.hpp driven to limit-1 / limit / limit+1 (255/256/257, 65535/65536/65537) by the template quantity behind it, in every tag kind and position, alone and nested once (inventory re-derived from the headers each run; judged when all driven quantities are below their limits, else under the finding name-of-256-units-or-more); round c: non-Latin-1 units that are a special character under a mask on every escaped path (widths 2/4/W), every 9th line again through a copy of the parsed tags, <loop group=> over objects with differing member orders against the Lean grouping specification; non-trivial = contains at least one tag",
               checker_cmd="cd lean && lake build Qentem.Props.C01 Qentem.Props.C04 Qentem.Props.C03 && lake env lean <#print axioms>")
